@@ -1,3 +1,4 @@
 pub mod addr;
 pub mod codec;
+pub mod ct;
 pub mod sighash;
